@@ -360,3 +360,7 @@ Definition same_networkb (s s' : state) : bool :=
 
 Definition graph_okb (nodes : list Z) (edges : list (Z * Z)) : bool :=
   forallb (fun e => zmem (fst e) nodes && zmem (snd e) nodes) edges.
+
+(* Process.perElementEventRateDistribution: rate = pr * len(locus) *)
+From Coq Require Import QArith.
+Definition rate (p : Q) (l : list elem) : Q := Qmult p (inject_Z (Z.of_nat (length l))).
